@@ -51,7 +51,7 @@ Proof. exact capture_adds_one. Qed.
 Print Assumptions C04_capture_adds_one.
 
 Example C04_nonvacuous :
-  let tc := ValueM.mktc 2 3 4 5 in
+  let tc := ValueM.mktc 2 3 4 5 [] in
   let P := mkparams tc (fun _ => 1%N) in
   (* 7 ?(drop 1 2 3) *)
   let t := TCat [TConst 7 DDec; TAssert (TPredSubx (TScope (TCat [TRead (nm "drop"); TConst 1 DDec; TConst 2 DDec])))] in
